@@ -11,7 +11,7 @@ type c05Panic struct {
 	val any
 }
 
-//verif:entry property=C05 tier=both bounds="n<=N handlers, each plain or context-aware with arbitrary Once/Async/Sequential flags and a panics flag with symbolic panic value; two publishes, then Wait; panic handler present or nil" cover="some-panic,no-panic" N_quick=2 N_thorough=3
+//verif:entry property=C05 tier=both bounds="n<=N handlers, each plain or context-aware with arbitrary Once/Async/Sequential flags and a panics flag with symbolic panic value; two publishes (of the event type itself or as interface values), then Wait; panic handler present or nil" cover="some-panic,no-panic" N_quick=2 N_thorough=3
 func harnessC05Panics() {
 	N := vParam("N", 2)
 	c01Log, c01Re = nil, nil
@@ -69,10 +69,15 @@ func harnessC05Panics() {
 		}
 	}
 	anyPanic := false
+	viaAny := vBool() // the events are handed to Publish as interface values
 	for p := 0; p < 2; p++ {
 		c01TakeLog()
 		panics = nil
-		Publish(bus, evA{N: 10 + p})
+		if viaAny {
+			Publish[any](bus, evA{N: 10 + p})
+		} else {
+			Publish(bus, evA{N: 10 + p})
+		}
 		bus.Wait()
 		got := c01TakeLog()
 		wantPanics := 0
